@@ -581,6 +581,12 @@ func (g *genCtx) body(q *rq) {
 		}
 		raw := r.Chance(1, 8)
 		b = append([]byte(nil), cePayload(list, kind, raw)...)
+		if r.Chance(1, 25) {
+			// zstd frame announcing a 1..4 MiB window for one byte of content
+			list = []string{"zstd"}
+			b = zstdWindowFrame(uint(r.Range(20, 22)))
+			q.Shape = append(q.Shape, "zstd-window")
+		}
 		if ceKinds[kind].ctype != "" {
 			ct = ceKinds[kind].ctype
 		}
